@@ -31,6 +31,8 @@ type connCase struct {
 	tls     []string // per connection: p = plain; n = TLS without client certificate; c<hex> = TLS with that leaf common name
 	rule    string
 	hasRule bool
+	prep    string // "reauth": the application clears the authenticators and restarts the server before any connection is served
+	cfail   []bool // per connection: closing the socket reports an error (as tls.Conn.Close does when close_notify cannot be sent)
 }
 
 func parseCase(line string) connCase {
@@ -72,6 +74,12 @@ func parseCase(line string) connCase {
 			c.par = v == "1"
 		case "tls": // per connection, comma separated: p = plain, n = TLS without client certificate, c<hex> = TLS, leaf common name
 			c.tls = strings.Split(v, ",")
+		case "prep":
+			c.prep = v
+		case "cfail":
+			for _, x := range strings.Split(v, ",") {
+				c.cfail = append(c.cfail, x == "1")
+			}
 		case "rule": // the common name a client certificate must carry (certificate authenticator)
 			if v != "-" {
 				c.rule = string(unhx(v))
@@ -140,6 +148,22 @@ func runConnCase(c connCase) string {
 	}
 	if err := srv.Start(); err != nil {
 		return "START-ERROR " + err.Error()
+	}
+	if c.prep == "reauth" {
+		// an application that reloads its authenticators at run time: the password the configuration requires must still
+		// be enforced after the restart
+		srv.ClearAuthenticators()
+		if c.hasRule {
+			srv.AddAuthenticator(auth.NewCertificateAuthenticatorWith(auth.WithCommonName(c.rule)))
+		}
+		if err := srv.Restart(); err != nil {
+			return "START-ERROR restart: " + err.Error()
+		}
+	}
+	for i, r := range runs {
+		if i < len(c.cfail) && c.cfail[i] {
+			r.pc.closeFails = true
+		}
 	}
 	started := make([]bool, len(runs))
 	var startMu sync.Mutex
